@@ -40,7 +40,8 @@ type AlertJ struct {
 	Annots   map[string]string `json:"annotations"`
 	StartOff int64             `json:"start_off"` // ns relative to now (negative = past)
 	HasEnd   bool              `json:"has_end"`
-	EndOff   int64             `json:"end_off"` // ns relative to now; resolved iff has_end && end_off <= 0
+	EndOff   int64             `json:"end_off"`           // ns relative to now; resolved iff has_end && end_off <= 0
+	Timeout  bool              `json:"timeout,omitempty"` // alert.Alert.Timeout: EndsAt was set by resolve_timeout, not by the client
 }
 
 // what the template / the webhook receiver saw
@@ -88,6 +89,7 @@ var annVals = []string{"", "x", "x", "y", "http://rb/1"}
 func genData(r *vh.Rand, env vh.Env) Case {
 	dc := &DataCase{Webhook: r.Chance(2, 5), MaxAlerts: vh.Pick(r, []uint64{0, 0, 1, 2, 10}), Group: map[string]string{}}
 	n := vh.Pick(r, []int{0, 1, 1, 2, 2, 3, 3, 4, 5, 6})
+	timedOutBatch := r.Chance(1, 7)
 	shareAll := r.Chance(1, 3) // identical label values everywhere except instance
 	for i := 0; i < n; i++ {
 		a := AlertJ{Labels: map[string]string{}, Annots: map[string]string{}}
@@ -117,6 +119,11 @@ func genData(r *vh.Rand, env vh.Env) Case {
 		} else {
 			a.HasEnd = r.Chance(3, 4)
 			a.EndOff = vh.Pick(r, []int64{-int64(time.Hour), int64(time.Hour), -1, 0, 1, int64(5 * time.Minute)})
+		}
+		// the Timeout flag (alert posted without endsAt) is independent of EndsAt and of the status shown
+		a.Timeout = r.Bool()
+		if timedOutBatch { // only alerts that timed out (resolve_timeout passed): all resolved
+			a.Timeout, a.HasEnd, a.EndOff = true, true, -vh.Pick(r, []int64{int64(time.Hour), int64(time.Minute)})
 		}
 		if i == 0 && r.Chance(2, 3) { // the first alert of the batch has data of its own (a templated description, ...)
 			a.Annots["description"] = "instance i1 is down since 12:00"
@@ -169,6 +176,7 @@ func mkAlerts(as []AlertJ, now time.Time) []*types.Alert {
 		if a.HasEnd {
 			al.EndsAt = now.Add(time.Duration(a.EndOff))
 		}
+		al.Timeout = a.Timeout
 		out = append(out, al)
 	}
 	return out
